@@ -9,12 +9,18 @@
 (*   core/client/client_ip.go destination of the NTP request that follows  *)
 (* against an arbitrary key-exchange peer (property C20).                  *)
 (*                                                                         *)
-(* The client is sequential; the only environment is the peer, which       *)
-(* chooses an ALPN answer, sends records one after the other and may close *)
-(* the connection at a record boundary, inside a record header or inside a *)
-(* record body.  One action per interaction with the peer (Dial,           *)
-(* SendRequest, ReadRecord, ReadCut, PeerClose) and per local decision of  *)
-(* the code (CheckAlpn, Export, Finish, FetchCached, StoreCookie).         *)
+(* The client is sequential; the environment is the peer, which chooses an *)
+(* ALPN answer, sends records one after the other and may close the        *)
+(* connection at a record boundary, inside a record header or inside a     *)
+(* record body - and TIME: every FetchData call carries the caller's       *)
+(* context, whose deadline may pass while the exchange is reading because  *)
+(* the peer STALLS (at a record boundary, inside a header, inside a body)  *)
+(* for longer than that deadline and then CONTINUES.  One action per       *)
+(* interaction with the peer (Dial, SendRequest, ReadRecord, ReadCut,      *)
+(* PeerClose), per local decision of the code (CheckAlpn, Export, Finish,  *)
+(* FetchCached, StoreCookie), one for the deadline (StallPastDeadline) and *)
+(* two for what the peer does on the connection of a call that has already *)
+(* returned (LateRecord, LateClose).                                       *)
 (*                                                                         *)
 (* Symbolic values.  TLS session number s (1, 2, ...) stands for the       *)
 (* session secret; the RFC 8915 exporter values of that session are        *)
@@ -44,6 +50,16 @@
 (*                               defaults.diff                             *)
 (*                        FALSE: dialQUIC's Data result is discarded by    *)
 (*                               exchangeKeys (QUIC branch as it is)       *)
+(*   CtxMode   what the caller's deadline does to an exchange that is      *)
+(*             reading (the statement leaves it open whether such a call   *)
+(*             fails at the deadline or returns late):                     *)
+(*             "ignored" : ReadData never looks at its context: the call   *)
+(*                         goes on when the peer does (the code as it is)  *)
+(*             "returns" : the call fails at the deadline and nothing      *)
+(*                         reads that connection any more                  *)
+(*             "abandons": (specification self-test) the call fails at the *)
+(*                         deadline, but a reader left behind keeps        *)
+(*                         parsing what arrives later into Fetcher.data    *)
 (***************************************************************************)
 EXTENDS Integers, Sequences, FiniteSets, TLC
 
@@ -57,7 +73,9 @@ CONSTANTS Transport,            \* "tls" | "quic"
           MaxRecs,              \* records per exchange      (model checking bound)
           MaxDials,             \* exchanges per Fetcher     (model checking bound)
           MaxCalls,             \* FetchData calls           (model checking bound)
-          MaxStore              \* StoreCookie calls         (model checking bound)
+          MaxStore,             \* StoreCookie calls         (model checking bound)
+          CtxMode,              \* "ignored" | "returns" | "abandons"
+          MaxStalls             \* stalls past the deadline  (model checking bound)
 
 \* "ntske/1": the peer selects the offered protocol; "none": it completes the
 \* handshake without selecting a protocol; "other": it insists on a protocol the
@@ -82,6 +100,7 @@ PortB == 4002
 StdPort == IF Transport = "quic" THEN 10123 ELSE 123   \* ntp.ServerPortSCION / ServerPortIP
 
 ASSUME /\ Transport \in {"tls", "quic"}
+       /\ CtxMode \in {"ignored", "returns", "abandons"}
        /\ Alpns \subseteq AllAlpns /\ Alphabet \subseteq AllRecs /\ CutRecs \subseteq AllRecs
        \* QUIC cannot complete a handshake without an agreed application protocol
        /\ Transport = "quic" => "none" \notin Alpns
@@ -165,19 +184,31 @@ VARIABLES data,    \* Fetcher.data
           dest,    \* where the NTP request built from that return goes (client_ip.go)
           good,    \* ghost: the cached data stem from a successful exchange (namely session sess)
           gpool,   \* ghost: the cookies issued to this client and not yet used, in order
-          ncalls, ndials, nstore
+          ctx,     \* "live" | "expired": the deadline of the current call's context
+          pend,    \* the part of its NEXT record the peer has already sent (it stalled inside it):
+                   \*   [w |-> "no" | "hdr" | "body", r |-> that record]
+          late,    \* the connection of a call that returned at its deadline while the peer had not
+                   \*   finished: [open (the peer may still send), reader (something still reads it)]
+          ncalls, ndials, nstore, nstalls
 
-vars == <<data, conn, sess, sv, ret, dest, good, gpool, ncalls, ndials, nstore>>
+vars == <<data, conn, sess, sv, ret, dest, good, gpool, ctx, pend, late, ncalls, ndials, nstore, nstalls>>
 
 NoDest == [sent |-> FALSE, server |-> "", port |-> 0]
 Ret0   == [ok |-> TRUE, exch |-> TRUE, prevok |-> TRUE, data |-> Data0]
+NoPend == [w |-> "no", r |-> ""]
+NoLate == [open |-> FALSE, reader |-> FALSE]
 
 Init ==
   /\ data = Data0 /\ conn = "none" /\ sess = 0 /\ sv = Sv0
   /\ ret = Ret0 /\ dest = NoDest /\ good = FALSE /\ gpool = << >>
-  /\ ncalls = 0 /\ ndials = 0 /\ nstore = 0
+  /\ ctx = "live" /\ pend = NoPend /\ late = NoLate
+  /\ ncalls = 0 /\ ndials = 0 /\ nstore = 0 /\ nstalls = 0
 
 Idle == conn \in {"none", "done", "failed"}
+\* the next operation on the Fetcher starts after the peer has finished with the
+\* connection of a call that returned at its deadline (what is still to arrive
+\* there has arrived: the property speaks about the calls that FOLLOW)
+Quiet == Idle /\ ~late.open
 
 \* FetchData returns; the caller (measureClockOffsetIP) sends its request to
 \* (Data.Server, Data.Port)
@@ -195,26 +226,28 @@ FailExchange(d) ==
 
 \* FetchData with a non-empty pool: no exchange, hand out the first cookie
 FetchCached ==
-  /\ Idle /\ data.pool # << >> /\ ncalls < MaxCalls
+  /\ Quiet /\ data.pool # << >> /\ ncalls < MaxCalls
   /\ ncalls' = ncalls + 1
   /\ Complete(TRUE, FALSE, data)
   /\ data' = [data EXCEPT !.pool = Tail(@)]
   /\ gpool' = IF good /\ gpool # << >> THEN Tail(gpool) ELSE gpool
-  /\ UNCHANGED <<conn, sess, sv, good, ndials, nstore>>
+  /\ ctx' = "live"
+  /\ UNCHANGED <<conn, sess, sv, good, pend, late, ndials, nstore, nstalls>>
 
 \* FetchData with an empty pool: exchangeKeys; tls.DialWithDialer / scion.DialQUIC
 Dial(a) ==
-  /\ Idle /\ data.pool = << >> /\ ncalls < MaxCalls /\ ndials < MaxDials
+  /\ Quiet /\ data.pool = << >> /\ ncalls < MaxCalls /\ ndials < MaxDials
   /\ a \in Alpns
   /\ ncalls' = ncalls + 1 /\ ndials' = ndials + 1
   /\ sv' = [Sv0 EXCEPT !.alpn = a]
+  /\ ctx' = "live"
   /\ IF a \in {"other", "refused"}
      THEN \* `conn, f.data, err = dialTLS(...)` assigns Data{}; `conn, _, err := dialQUIC(...)` nothing
           /\ FailExchange(IF DialResetsData THEN Data0 ELSE data)
           /\ UNCHANGED sess
      ELSE /\ conn' = "dialed" /\ sess' = sess + 1
           /\ UNCHANGED <<data, ret, dest, good, gpool>>
-  /\ UNCHANGED nstore
+  /\ UNCHANGED <<pend, late, nstore, nstalls>>
 
 \* dialTLS: `if state.NegotiatedProtocol != alpn`; its result is assigned to f.data
 CheckAlpn ==
@@ -224,43 +257,89 @@ CheckAlpn ==
      ELSE /\ conn' = "alpnOk"
           /\ data' = IF DialResetsData THEN DialDefaults ELSE data
           /\ UNCHANGED <<ret, dest, good, gpool>>
-  /\ UNCHANGED <<sess, sv, ncalls, ndials, nstore>>
+  /\ UNCHANGED <<sess, sv, ctx, pend, late, ncalls, ndials, nstore, nstalls>>
 
 \* exchangeDataTLS / exchangeDataQUIC write NextProto(NTPv4), AEAD(15), End
 SendRequest ==
   /\ conn = "alpnOk" /\ conn' = "reading"
-  /\ UNCHANGED <<data, sess, sv, ret, dest, good, gpool, ncalls, ndials, nstore>>
+  /\ UNCHANGED <<data, sess, sv, ret, dest, good, gpool, ctx, pend, late, ncalls, ndials, nstore, nstalls>>
+
+\* the record the peer completes next is the one it has begun
+Begun(r) == pend.w # "no" => r = pend.r
 
 \* one iteration of ReadData's loop on a completely received record
 ReadRecord(r) ==
-  /\ conn = "reading" /\ sv.n < MaxRecs /\ r \in Alphabet
+  /\ conn = "reading" /\ sv.n < MaxRecs /\ r \in Alphabet /\ Begun(r)
   /\ sv' = SvRec(sv, r)
+  /\ pend' = NoPend
   /\ IF Stops(r)
      THEN FailExchange(data)
      ELSE /\ data' = RecData(data, r, sess, sv.nck)
           /\ conn' = IF r = "eom" THEN "eom" ELSE "reading"
           /\ UNCHANGED <<ret, dest, good, gpool>>
-  /\ UNCHANGED <<sess, ncalls, ndials, nstore>>
+  /\ UNCHANGED <<sess, ctx, late, ncalls, ndials, nstore, nstalls>>
 
 \* the peer closes the connection inside record r
 ReadCut(r, w) ==
   /\ conn = "reading" /\ sv.n < MaxRecs /\ r \in CutRecs /\ w \in {"hdr", "body"}
   /\ w = "body" => HasBody(r)
+  /\ Begun(r) /\ (pend.w = "body" => w = "body")
   /\ sv' = [sv EXCEPT !.cut = w, !.last = r]
+  /\ pend' = NoPend
   /\ FailExchange(CutData(data, r, w, sess, sv.nck))
-  /\ UNCHANGED <<sess, ncalls, ndials, nstore>>
+  /\ UNCHANGED <<sess, ctx, late, ncalls, ndials, nstore, nstalls>>
 
 \* the peer closes the connection at a record boundary (no End of Message)
 PeerClose ==
-  /\ conn = "reading"
+  /\ conn = "reading" /\ pend.w = "no"
   /\ FailExchange(data)
+  /\ UNCHANGED <<sess, sv, ctx, pend, late, ncalls, ndials, nstore, nstalls>>
+
+\* The peer falls silent - at a record boundary (w = "bnd"), after a part of the
+\* header (w = "hdr") or of the body (w = "body") of its next record r - and
+\* stays silent until the deadline of the caller's context has passed; then it
+\* continues.  ReadData (binary.Read / io.ReadFull on the connection) does not
+\* look at its context: under "ignored" the call simply goes on when the peer
+\* does.  Code that honours the deadline returns an error here ("returns");
+\* the peer does not know and still sends the rest (LateRecord, LateClose).
+StallPastDeadline(w, r) ==
+  /\ conn = "reading" /\ ctx = "live" /\ pend.w = "no" /\ nstalls < MaxStalls
+  /\ \/ w = "bnd" /\ r = ""
+     \/ w \in {"hdr", "body"} /\ r \in CutRecs \cap Alphabet /\ sv.n < MaxRecs /\ (w = "body" => HasBody(r))
+  /\ nstalls' = nstalls + 1
+  /\ ctx' = "expired"
+  /\ pend' = IF w = "bnd" THEN NoPend ELSE [w |-> w, r |-> r]
+  /\ IF CtxMode = "ignored"
+     THEN UNCHANGED <<data, conn, ret, dest, good, gpool, late>>
+     ELSE /\ FailExchange(data)
+          /\ late' = [open |-> TRUE, reader |-> CtxMode = "abandons"]
   /\ UNCHANGED <<sess, sv, ncalls, ndials, nstore>>
+
+\* the peer completes another record on the connection of a call that has returned
+LateRecord(r) ==
+  /\ conn = "failed" /\ late.open /\ ~sv.eom /\ sv.n < MaxRecs /\ r \in Alphabet /\ Begun(r)
+  /\ sv' = SvRec(sv, r)
+  /\ pend' = NoPend
+  /\ IF late.reader
+     THEN IF Stops(r) \/ r = "eom"
+          THEN data' = data /\ late' = [late EXCEPT !.reader = FALSE]
+          ELSE data' = RecData(data, r, sess, sv.nck) /\ UNCHANGED late
+     ELSE UNCHANGED <<data, late>>
+  /\ UNCHANGED <<conn, sess, ret, dest, good, gpool, ctx, ncalls, ndials, nstore, nstalls>>
+
+\* the peer closes that connection (inside the record it had begun, if any)
+LateClose ==
+  /\ conn = "failed" /\ late.open
+  /\ late' = NoLate /\ pend' = NoPend
+  /\ sv' = IF pend.w = "no" THEN sv ELSE [sv EXCEPT !.cut = pend.w, !.last = pend.r]
+  /\ data' = IF late.reader /\ pend.w # "no" THEN CutData(data, pend.r, pend.w, sess, sv.nck) ELSE data
+  /\ UNCHANGED <<conn, sess, ret, dest, good, gpool, ctx, ncalls, ndials, nstore, nstalls>>
 
 \* ExportKeys on the connection state
 Export ==
   /\ conn = "eom" /\ conn' = "exported"
   /\ data' = [data EXCEPT !.c2s = C2S(sess), !.s2c = S2C(sess)]
-  /\ UNCHANGED <<sess, sv, ret, dest, good, gpool, ncalls, ndials, nstore>>
+  /\ UNCHANGED <<sess, sv, ret, dest, good, gpool, ctx, pend, late, ncalls, ndials, nstore, nstalls>>
 
 \* the checks at the end of exchangeKeys, then FetchData's copy and pop
 Finish ==
@@ -272,15 +351,17 @@ Finish ==
           /\ data' = [data EXCEPT !.pool = Tail(@)]
           /\ good' = TRUE
           /\ gpool' = IF sv.nck > 0 THEN Tail(Issued(sess, sv.nck)) ELSE << >>
-  /\ UNCHANGED <<sess, sv, ncalls, ndials, nstore>>
+  /\ UNCHANGED <<sess, sv, ctx, pend, late, ncalls, ndials, nstore, nstalls>>
 
 \* nts.ProcessResponse hands the cookies of an authenticated NTP response over
 StoreCookie ==
-  /\ Idle /\ ncalls > 0 /\ ret.ok /\ nstore < MaxStore
+  /\ Quiet /\ ncalls > 0 /\ ret.ok /\ nstore < MaxStore
   /\ nstore' = nstore + 1
   /\ data' = [data EXCEPT !.pool = Append(@, StoredId(nstore + 1))]
   /\ gpool' = IF good THEN Append(gpool, StoredId(nstore + 1)) ELSE gpool
-  /\ UNCHANGED <<conn, sess, sv, ret, dest, good, ncalls, ndials>>
+  /\ UNCHANGED <<conn, sess, sv, ret, dest, good, ctx, pend, late, ncalls, ndials, nstalls>>
+
+StallPoints == {<<"bnd", "">>} \cup {<<w, r>> : w \in {"hdr", "body"}, r \in CutRecs}
 
 Next ==
   \/ FetchCached
@@ -289,6 +370,9 @@ Next ==
   \/ \E r \in Alphabet : ReadRecord(r)
   \/ \E r \in CutRecs, w \in {"hdr", "body"} : ReadCut(r, w)
   \/ PeerClose
+  \/ \E x \in StallPoints : StallPastDeadline(x[1], x[2])
+  \/ \E r \in Alphabet : LateRecord(r)
+  \/ LateClose
   \/ Export \/ Finish
   \/ StoreCookie
 
@@ -302,19 +386,25 @@ Spec == Init /\ [][Next]_vars
 FailResult(d, s) ==
   [ok |-> FALSE, exch |-> TRUE, post |-> IF ResidueAfterFailure THEN d ELSE Data0, ret |-> Data0, sess |-> s]
 
-RECURSIVE ReadLoop(_, _, _, _, _, _)
-ReadLoop(d, s, recs, cut, i, k) ==
-  IF i > Len(recs) THEN FailResult(d, s)                           \* closed at a record boundary
-  ELSE LET r == recs[i] IN
-    IF i = Len(recs) /\ cut # "none" THEN FailResult(CutData(d, r, cut, s, k), s)
+\* sc: the peer's script [alpn, recs, cut, stall, stallw]: after `stall` complete
+\* records the peer stalls past the caller's deadline (stallw = "bnd" | "hdr" |
+\* "body": where in its next record; "none": it does not stall), then goes on
+Stalled(sc, i) == CtxMode # "ignored" /\ sc.stallw # "none" /\ i = sc.stall + 1
+
+RECURSIVE ReadLoop(_, _, _, _, _)
+ReadLoop(d, s, sc, i, k) ==
+  IF Stalled(sc, i) THEN FailResult(d, s)                          \* the deadline passes while reading
+  ELSE IF i > Len(sc.recs) THEN FailResult(d, s)                   \* closed at a record boundary
+  ELSE LET r == sc.recs[i] IN
+    IF i = Len(sc.recs) /\ sc.cut # "none" THEN FailResult(CutData(d, r, sc.cut, s, k), s)
     ELSE IF Stops(r) THEN FailResult(d, s)
     ELSE IF r = "eom"
     THEN LET e == [d EXCEPT !.c2s = C2S(s), !.s2c = S2C(s)] IN
          IF e.pool = << >> \/ e.algo # Alg15 THEN FailResult(e, s)
          ELSE [ok |-> TRUE, exch |-> TRUE, post |-> [e EXCEPT !.pool = Tail(@)], ret |-> e, sess |-> s]
-    ELSE ReadLoop(RecData(d, r, s, k), s, recs, cut, i + 1, IF r = "ck" THEN k + 1 ELSE k)
+    ELSE ReadLoop(RecData(d, r, s, k), s, sc, i + 1, IF r = "ck" THEN k + 1 ELSE k)
 
-\* d: Fetcher.data before the call, s: sessions so far, sc: [alpn, recs, cut]
+\* d: Fetcher.data before the call, s: sessions so far, sc: the peer's script
 RunCall(d, s, sc) ==
   IF d.pool # << >>
   THEN [ok |-> TRUE, exch |-> FALSE, post |-> [d EXCEPT !.pool = Tail(@)], ret |-> d, sess |-> s]
@@ -322,7 +412,7 @@ RunCall(d, s, sc) ==
   THEN FailResult(IF DialResetsData THEN Data0 ELSE d, s)
   ELSE IF Transport = "tls" /\ sc.alpn # "ntske/1"
   THEN FailResult(IF DialResetsData THEN Data0 ELSE d, s + 1)
-  ELSE ReadLoop(IF DialResetsData THEN DialDefaults ELSE d, s + 1, sc.recs, sc.cut, 1, 0)
+  ELSE ReadLoop(IF DialResetsData THEN DialDefaults ELSE d, s + 1, sc, 1, 0)
 
 (***************************************************************************)
 (* Property section (C20)                                                  *)
@@ -332,6 +422,9 @@ TypeOK ==
   /\ data.algo \in {0, Alg15, AlgX} /\ data.server \in {"", "host", "A", "B"}
   /\ data.port \in {0, StdPort, PortA, PortB}
   /\ sess \in 0 .. MaxDials /\ ret.ok \in BOOLEAN /\ good \in BOOLEAN
+  /\ ctx \in {"live", "expired"} /\ pend.w \in {"no", "hdr", "body"}
+  /\ late.open \in BOOLEAN /\ late.reader \in BOOLEAN /\ (late.reader => late.open)
+  /\ late.open => conn = "failed"
 
 \* A key exchange succeeds only if the peer negotiated ntske/1, selected
 \* AES-SIV-CMAC-256, supplied at least one cookie and ended the record stream
@@ -378,6 +471,9 @@ Destination ==
 
 \* A failed exchange leaves nothing behind that a later request would use: a call
 \* that follows a failed one and returns data has run a complete exchange of its own.
+\* (Whatever the peer still sends on the connection of the failed call - it may
+\* have failed at the caller's deadline, with the peer none the wiser - arrives
+\* between the two calls: LateRecord, LateClose.)
 NoResidue == (ret.ok /\ ~ret.prevok) => ret.exch
 \* (how this implementation has to achieve it, FetchData being keyed on the pool)
 NoResidueState == conn = "failed" => data.pool = << >>
